@@ -19,8 +19,9 @@ from . import tlc
 STEP_TIMEOUT = 20
 
 
-class StepTimeout(Exception):
-    pass
+class StepTimeout(BaseException):
+    """raised by the per-record alarm; a BaseException so that a mode's own `except Exception`
+    (funsor errors are declines) cannot swallow it"""
 
 
 def _alarm(signum, frame):
